@@ -126,6 +126,11 @@ def check_batch(run, b, nrand, valgrind=False):
             probes.append(("a digit of the id moved to the end of the bus name", int(sid_[1:]), bus + sid_[0]))
         if len(bus) > 1 and bus[-1].isdigit() and bus[-1] != "0" and int(bus[-1] + sid_) <= 65535 and (int(bus[-1] + sid_), bus[:-1]) not in used:
             probes.append(("the last digit of the bus name moved to the front of the id", int(bus[-1] + sid_), bus[:-1]))
+        # a frame that carries no bus tag at all (four NUL bytes), or a tag of blanks: no binding declares that bus
+        if (fid, "") not in used:
+            probes.append(("the binding's id with an empty bus tag", fid, ""))
+        if (fid, "    ") not in used and r.random() < 0.5:
+            probes.append(("the binding's id with a bus tag of four blanks", fid, "    "))
         for what, pid, pbus in probes:
             frame = "%d %s %d %s" % (pid, bus_hex(pbus), 8, "00" * 8)
             for op in ("CSD", "CDD"):
